@@ -325,4 +325,4 @@ def cl23(F, R):
                               "field %s.%s holds a %s: a clone aliases the original" % (a, f["name"], p))
     R.ok("CL3", "(lib)", "type closure of Sodg declared in this crate (%s; %d fields) holds no Rc/Arc/reference/cell/lock/atomic/raw pointer"
          % (", ".join(sorted(seen)), n))
-    R.floor("CL3", "fields in the type closure of Sodg", n, 12)
+    R.floor("CL3", "fields in the type closure of Sodg", n, 8)
